@@ -1,5 +1,5 @@
 #!/bin/sh
-# confirm_seeded.sh <agent-worktree> <id> : re-verifies a seeded change independently in a fresh scratch worktree of /repo HEAD
+# [SUB=SEEDED1] confirm_seeded.sh <agent-worktree> <id> : re-verifies a seeded change independently in a fresh scratch worktree of /repo HEAD
 # (patch applies, builds, suite passes with it, demo fails with it and passes without) and stores it under /verif/seeded/<id>/.
 set -u
 SRC=$1; ID=$2
@@ -8,18 +8,18 @@ WT=/tmp/wt-confirm.$$
 git -C /repo worktree add --detach $WT HEAD >/dev/null 2>&1 || exit 2
 trap 'git -C /repo worktree remove --force $WT >/dev/null 2>&1' EXIT
 cd $WT
-git apply $SRC/SEEDED/patch.diff || { echo "RESULT $ID patch-does-not-apply"; exit 1; }
+git apply $SRC/${SUB:-SEEDED}/patch.diff || { echo "RESULT $ID patch-does-not-apply"; exit 1; }
 go build ./... || { echo "RESULT $ID does-not-build"; exit 1; }
 if go test -vet=off -count=1 ./... >/tmp/suite.$$ 2>&1; then SUITE=pass; else SUITE=FAIL; fi
 # demo: a nested module whose replace points at the agent's worktree -> point it at ours
-rm -rf $WT/SEEDED && cp -r $SRC/SEEDED $WT/SEEDED
-sed -i "s#=> $SRC#=> $WT#" $WT/SEEDED/demo/go.mod
-(cd $WT/SEEDED/demo && timeout 300 ${DEMO_RUN:-go run .} >/tmp/demo_with.$$ 2>&1); WITH=$?
-git apply -R $SRC/SEEDED/patch.diff
-(cd $WT/SEEDED/demo && timeout 300 ${DEMO_RUN:-go run .} >/tmp/demo_without.$$ 2>&1); WITHOUT=$?
+rm -rf $WT/SEEDEDX && cp -r $SRC/${SUB:-SEEDED} $WT/SEEDEDX
+sed -i "s#=> $SRC#=> $WT#" $WT/SEEDEDX/demo/go.mod
+(cd $WT/SEEDEDX/demo && timeout 300 ${DEMO_RUN:-go run .} >/tmp/demo_with.$$ 2>&1); WITH=$?
+git apply -R $SRC/${SUB:-SEEDED}/patch.diff
+(cd $WT/SEEDEDX/demo && timeout 300 ${DEMO_RUN:-go run .} >/tmp/demo_without.$$ 2>&1); WITHOUT=$?
 echo "RESULT $ID suite_with_change=$SUITE demo_with_change_exit=$WITH demo_without_exit=$WITHOUT"
 if [ "$SUITE" = pass ] && [ $WITH -ne 0 ] && [ $WITHOUT -eq 0 ]; then
-  mkdir -p /verif/seeded/$ID && cp $SRC/SEEDED/patch.diff $SRC/SEEDED/meta.json /verif/seeded/$ID/ && rm -rf /verif/seeded/$ID/demo && cp -r $SRC/SEEDED/demo /verif/seeded/$ID/demo
+  mkdir -p /verif/seeded/$ID && cp $SRC/${SUB:-SEEDED}/patch.diff $SRC/${SUB:-SEEDED}/meta.json /verif/seeded/$ID/ && rm -rf /verif/seeded/$ID/demo && cp -r $SRC/${SUB:-SEEDED}/demo /verif/seeded/$ID/demo
   sed -i "s#=> $SRC#=> /repo#" /verif/seeded/$ID/demo/go.mod
   echo "KEPT $ID"
 else
